@@ -118,6 +118,9 @@ HOSTILE += [  # lines that look like a comment / a blank line from column 0 but 
     'x = [\n    """a\n# not a comment""",\n    b,  # c0\n    c,\n]  # c1\nf(\'\'\'m\n\n\'\'\',\n  p,  # c2\n  k=q)',
     "# c0\n# c1\n@d1  # c2\n@d2\ndef f():  # c3\n    pass\n# c4\n@e1\n# c5\n@e2\nclass K:\n    pass",
 ]
+HOSTILE += [  # comments between the separators of a slice and its parts
+    "v = a[b:  # c0\n      c:  # c1\n      d]  # c2\nw = a[  # c3\n      b:c]  # c4",
+]
 for _p in HOSTILE:
     ast.parse(_p)
 PROGS = COMMENTED + [PROGRAMS[i] for i in (11, 20, 21, 22, 23, 24, 25, 26, 27, 28, 37, 38)] + HOSTILE
@@ -564,6 +567,10 @@ def classify_loss(src, tree, op, lost):
             out['star_param_delete'] = True
         if k == 'delattr' and op.get('field') in ('vararg', 'kwarg'):
             out['star_param_delete'] = True
+        if k in ('remove', 'cut') and path and path[-1][0] in ('lower', 'upper', 'step') and isinstance(O.get_path(tree, path[:-1]), ast.Slice):
+            out['slice_part_delete'] = True
+        if k == 'delattr' and op.get('field') in ('lower', 'upper', 'step') and isinstance(O.get_path(tree, path), ast.Slice):
+            out['slice_part_delete'] = True
         if k == 'replace' and path and path[-1][0] == 'orelse':
             par = O.get_path(tree, path[:-1])
             code0 = (op.get('code') or [None])[0]
